@@ -810,6 +810,9 @@ SUBKINDS = ("submit", "trysubmit", "cancel")
 def translate(run):
     """real event history -> ops for Jade.Sys.step (+ what was observed, for comparison)"""
     vc, sc = run.vc, run.sc
+    if sc.get("local") or any(g.get("dryRun") for g in sc["groups"]):
+        # local mode has no cluster protocol (one in-process JobRunner); dry-run hands nothing to the HPC
+        return {"scn": None, "events": [], "expected": [], "final": {}}
     tr = vc.trace
     kinds = {p.pid: p.kind for p in vc.procs.values()}
     evs, exp = [], []
